@@ -280,7 +280,9 @@ def run_check(prop_id, tier, verif_seed, budget_s=None, workers=None, max_runs=N
     recs = []
     want_samples = {0, 1, 2}
     next_idx = 0
-    deadline = t_start + budget_s
+    # the budget is for the seeded batch itself: the known-finding replays and the determinism self-test that ran
+    # before it (slow on a loaded machine) must not eat it, or a busy machine would end with "no run completed"
+    deadline = time.monotonic() + budget_s
     with cf.ProcessPoolExecutor(max_workers=workers, mp_context=ctx, initializer=_worker_init, initargs=(sbx,)) as ex:
         pending = set()
 
